@@ -240,7 +240,11 @@ impl MScriptFile {
         // store the current name of the function.
         let mut current_function_name: Option<String> = None;
 
-        while let Ok(size) = reader.read_until(0x00, &mut buffer) {
+        loop {
+            let size = reader
+                .read_until(0x00, &mut buffer)
+                .with_context(|| format!("failed reading file `{path}`"))?;
+
             if size == 0 {
                 break;
             }
